@@ -23,19 +23,33 @@ def dedupe_rule(ctx, rid):
     S = anchors.scheduler(prog)
     ba = BA.of(S)
     contains = ba.calls(r"std::collections::hash::set::HashSet::contains")
-    inserts = ba.calls(r"std::collections::hash::set::HashSet::insert")
+    all_inserts = ba.calls(r"std::collections::hash::set::HashSet::insert")
+    # an insert whose bool result is branched on is a test as well
+    tested_inserts = [cbb for (sw, t_t, f_t, cbb) in ba.switches_on_call(r"std::collections::hash::set::HashSet::insert")]
+    tests = contains + tested_inserts
+    inserts = all_inserts
     sites = [bb for bb, _, _ in anchors.agg_sites(S, r"builder::BuildJob")]
-    first_site = min(sites) if sites else None
-    if not ctx.ob(rid, "%s|dedupe-present" % S.key, bool(contains) and bool(inserts), where=S.span,
-                  detail="a seen-set test and insert exist in the scheduler" if contains and inserts else
+    first_site = next((x for x in sorted(sites) if any(ba.dominates(c, x) for c in tests)), None)
+    if not ctx.ob(rid, "%s|dedupe-present" % S.key, bool(tests) and bool(inserts), where=S.span,
+                  detail="a seen-set test and insert exist in the scheduler" if tests and inserts else
                   "no per-command-line dedupe: the same target named twice is started twice"):
         return
-    # the test must dominate the first-pass construction site
-    dom = any(ba.dominates(c, first_site) for c in contains) if first_site is not None else False
-    ctx.ob(rid, "%s|dedupe-dominates-first-pass" % S.key, dom, where=ctx.where(S, contains[0]),
+    # the test must dominate the first-pass construction site, on its "not seen before" edge
+    dom = first_site is not None
+    ctx.ob(rid, "%s|dedupe-dominates-first-pass" % S.key, dom, where=ctx.where(S, tests[0]) if tests else S.span,
            detail="the seen-set test dominates the first-pass BuildJob construction" if dom else "a first-pass job can be constructed without the seen-set test")
+    skip_ok = False
+    for (sw, t_t, f_t, cbb) in ba.switches_on_call(r"std::collections::hash::set::HashSet::(insert|contains)"):
+        is_insert = call_matches(S.blocks[cbb]["term"], r"std::collections::hash::set::HashSet::insert")
+        dup_edge = f_t if is_insert else t_t        # insert() == false / contains() == true: seen before
+        new_edge = t_t if is_insert else f_t
+        if first_site is not None and ba.edge_dominates((sw, new_edge), first_site) and ba.path([dup_edge], [first_site], avoid=frozenset(ba.calls(r".*::iterator::Iterator>?::next")), incl=True) is None:
+            skip_ok = True
+    ctx.ob(rid, "%s|duplicate=>skipped" % S.key, skip_ok, where=ctx.where(S, tests[0]),
+           detail="a target seen before is skipped (no job constructed in that iteration)" if skip_ok else "a duplicate is detected but still started")
+    contains = tests
     tnt = taint(S, src_call=lambda t: call_matches(t, r"state::File::from_name|state::File::id"), mode="derived")
-    for k, i in common.ordinal_keys([("seen-key", i) for i in contains + inserts]):
+    for k, i in common.ordinal_keys([("seen-key", i) for i in sorted(set(contains + inserts))]):
         a = S.blocks[i]["term"]["args"][1]
         l = op_local(a)
         ok = l in tnt
